@@ -237,3 +237,20 @@ def _clock_views(wn):
 
 CONTRACTS.append(Contract("wntr.network.model:WaterNetworkModel._shifted_time/_prev_shifted_time/_clock_time/_clock_day", P + ["C03"], [_clock_case(False), _clock_case(True)],
                           interpret_always=(_clock_views,), note="what TimeOfDayCondition.evaluate reads as (prev, now]; integer seconds"))
+
+
+# ---------------------------------------------------------------------------- bounded: schedules on the real simulator
+
+from pyvc.runner import Bounded
+
+
+def _instants(i, n):
+    def run(tier, seed):
+        import sys, os
+        sys.path.insert(0, os.path.dirname(os.path.dirname(os.path.abspath(__file__))))
+        from bounded import c04_instants
+        return c04_instants.run(tier, seed, i, n)
+    return run
+
+
+BOUNDED = [Bounded("C04.control_instants[%d/4]" % i, ["C04", "C05"], _instants(i, 4), kind="random schedules on the real simulator (not exhaustive)") for i in range(4)]
